@@ -60,7 +60,8 @@ class _AddOrRemoveNotifier:
     See ``add_or_remove_notifiers`` for the input parameters.
     """
 
-    def __init__(self, *, object, graph, handler, target, dispatcher, remove):
+    def __init__(self, *, object, graph, handler, target, dispatcher, remove,
+                 processed=None):
         self.object = object
         self.graph = graph
         self.handler = handler
@@ -69,7 +70,11 @@ class _AddOrRemoveNotifier:
         self.remove = remove
 
         # list of (notifier, observable)
-        self._processed = []
+        # Calls made for children graphs and extra graphs share the list of
+        # the outermost call, so that a failure anywhere undoes everything
+        # done so far, not just what was done for the failing level.
+        self._is_outermost = processed is None
+        self._processed = [] if processed is None else processed
 
     def __call__(self):
         """ Main function for adding/removing notifiers.
@@ -88,6 +93,12 @@ class _AddOrRemoveNotifier:
         # root to leaves.
         if self.remove:
             steps = steps[::-1]
+
+        if not self._is_outermost:
+            # The outermost call is responsible for undoing on failure.
+            for step in steps:
+                step()
+            return
 
         try:
             for step in steps:
@@ -109,28 +120,30 @@ class _AddOrRemoveNotifier:
         observer. e.g. for handing trait_added event.
         """
         for extra_graph in self.graph.node.iter_extra_graphs(self.graph):
-            add_or_remove_notifiers(
+            _AddOrRemoveNotifier(
                 object=self.object,
                 graph=extra_graph,
                 handler=self.handler,
                 target=self.target,
                 dispatcher=self.dispatcher,
                 remove=self.remove,
-            )
+                processed=self._processed,
+            )()
 
     def _add_or_remove_children_notifiers(self):
         """ Recursively add or remove notifiers for the children ObserverGraph.
         """
         for child_graph in self.graph.children:
             for next_object in self.graph.node.iter_objects(self.object):
-                add_or_remove_notifiers(
+                _AddOrRemoveNotifier(
                     object=next_object,
                     graph=child_graph,
                     handler=self.handler,
                     target=self.target,
                     dispatcher=self.dispatcher,
                     remove=self.remove,
-                )
+                    processed=self._processed,
+                )()
 
     def _add_or_remove_maintainers(self):
         """ Add or remove notifiers for maintaining children notifiers when
